@@ -147,15 +147,16 @@ CLAIMS = {
         "",
     ),
     "C03": (
-        "proof",
+        "other",
         "Routing contracts on the real Environment.error and RenderContext.error per mode (STRICT raises and warns nothing; WARN emits exactly one warning and returns; LAX returns silently); "
         "Tag.get_node for an arbitrary parse() that returns or raises a LiquidError (LAX/WARN never raise and return the node or an IllegalNode, warning exactly when parse failed); "
         "BoundTemplate.render_with_context for an arbitrary node sequence whose nodes return or raise any handled exception kind, in all (mode, partial, block_scope) combinations: escape set empty in LAX/WARN except interrupts re-raised to an enclosing partial. "
         "Non-interference is a structural obligation over every read of the tolerance mode (it only guards a raise) and every warnings.warn call site. "
+        "lookup_warning is proved total on every Liquid error class (the callee contract Environment.error relies on); Parser.parse_block's nesting guard aborts in every mode; no handler swallows a LiquidSyntaxError (one listed finding). "
         "A bounded check runs all 1-2 piece (thorough: 3) sequences of 40 well-formed/malformed pieces in the three modes.",
         "contract-based deductive verification (escape-set contracts with callee summaries, loop invariant) + structural guard-only obligations + bounded contract check",
         "DESIGN.md section 4 C03",
-        "",
+        "One known finding (a `when` alternative dropped only in strict mode) keeps the level at 'other'.",
     ),
     "C01": (
         "proof",
